@@ -5,6 +5,7 @@ import itertools
 
 from .. import gen, oracle, tt as T
 from .base import Mgr, replay  # noqa: F401
+from ..impl import vname
 
 RULE = ('histories over {var, and, not-and, xor, incref, release-at-zero, decref, collect, collect(roots), swap, '
         'ite on a recycled cache key}: all sequences up to length L over a 13-letter alphabet '
@@ -240,8 +241,98 @@ def random_history(ctx, steps):
     ctx.sample(dict(stream=h.M.s.label, first_lines=h.M.s.lines[:15]))
 
 
+def copied_manager(ctx, n):
+    """`copy.copy(bdd)` gives a second manager with its OWN counts: references taken and
+    released in one of the two, collections and new nodes there, leave the other's counts
+    exact for the other's own ledger, and nothing the other still holds is freed"""
+    rng = ctx.rng
+    order = list(range(n))
+    rng.shuffle(order)
+    M = Mgr(ctx, f'counts in a copied manager n={n} order={order}', n, order, aged=rng.random() < 0.5)
+    s = M.s
+    held = {0: {}, 1: {}}
+    tts = {}
+    for u in M.held:
+        # (references left by the manager's earlier history)
+        if abs(u) != 1:
+            held[0][u] = held[0].get(u, 0) + 1
+            tts[0, u] = tts[1, u] = M.tt(u)
+        else:
+            held[0][1] = held[0].get(1, 0) + 1
+    for _ in range(3):
+        t = rng.getrandbits(1 << n)
+        u = M.build(t)
+        if u is None or abs(u) == 1:
+            continue
+        M.op('incref', u)
+        held[0][u] = held[0].get(u, 0) + 1
+        tts[0, u] = tts[1, u] = M.tt(u)
+    if not held[0]:
+        return
+    s.op(1, 'copy_manager', 0)
+    held[1] = dict(held[0])
+    b = {0: s.impl.mgr[0], 1: s.impl.mgr[1]}
+    names = list(range(n))
+
+    def check(when):
+        for m in (0, 1):
+            ext = {1: 1}
+            for u, c in held[m].items():
+                ext[abs(u)] = ext.get(abs(u), 0) + c
+            bad = oracle.check_table(b[m], external=ext)
+            if bad:
+                ctx.violation('C06:counts', f'{when}: manager {m}: {bad[:3]}', M.case())
+                return False
+            for u in held[m]:
+                if abs(u) == 1:
+                    continue
+                if abs(u) not in b[m]._succ or oracle.tt_fast(b[m], u, [vname(i) for i in names]) != tts[m, u]:
+                    ctx.violation('C06:freed-or-changed', f'{when}: manager {m}: held reference {u} is gone or changed',
+                                  M.case())
+                    return False
+        return True
+    if not check('right after the copy'):
+        return
+    for step in range(10):
+        m = rng.randrange(2)
+        k = rng.randrange(5)
+        if k == 0 and held[m]:
+            u = rng.choice(list(held[m]))
+            s.op(m, 'decref', u)
+            held[m][u] -= 1
+            if not held[m][u]:
+                del held[m][u]
+        elif k == 1 and held[m]:
+            u = rng.choice(list(held[m]))
+            s.op(m, 'incref', u)
+            held[m][u] += 1
+        elif k == 2:
+            s.op(m, 'gc', None)
+        elif k == 3:
+            s.op(m, 'incref', 1)
+            s.op(m, 'decref', 1)
+        else:
+            t = rng.getrandbits(1 << n)
+            u = gen.build_tt(s, m, t, names)
+            if u is not None and abs(u) != 1 and rng.random() < 0.5:
+                s.op(m, 'incref', u)
+                held[m][u] = held[m].get(u, 0) + 1
+                tts[m, u] = t
+        ctx.case(('copied-manager', n, step, m, k), True)
+        ctx.count('copied-manager-step')
+        if not check(f'step {step} in manager {m}'):
+            return
+    for m in (0, 1):
+        for u, c in list(held[m].items()):
+            for _ in range(c):
+                s.op(m, 'decref', u)
+        s.op(m, 'gc', None)
+
+
 def run(ctx):
     q = ctx.quick
+    for n in ((3, 4) if q else (2, 3, 3, 4, 4, 5)):
+        copied_manager(ctx, n)
     gen.reuse_scenarios(ctx, 'C06:stale-result', 'C06', reps=12 if q else 150)
     parity = [0x96, 0x69, 0x66, 0x99, 0x3c, 0xc3, 0x5a, 0xa5, 0x6a, 0x9a, 0x1e, 0x78]
     swap_shapes(ctx, parity + (sorted(ctx.rng.sample(range(256), 20)) if q else list(range(256))))
